@@ -4,6 +4,7 @@ import (
 	"fmt"
 	"go/token"
 	"go/types"
+	"strings"
 
 	"golang.org/x/tools/go/ssa"
 )
@@ -181,4 +182,180 @@ func ordinalAny(f *ssa.Function, c *ssa.Call) int {
 		}
 	}
 	return 0
+}
+
+// staticReach returns the module functions reachable from the roots through
+// resolved static callees, closures created (MakeClosure) and functions
+// started with go / registered with defer. Interface invokes and calls of
+// function values are not followed (user modifiers are outside the program).
+func (w *World) staticReach(roots ...*ssa.Function) []*ssa.Function {
+	seen := map[*ssa.Function]bool{}
+	var order []*ssa.Function
+	var visit func(f *ssa.Function)
+	visit = func(f *ssa.Function) {
+		if f == nil || seen[f] || f.Blocks == nil || f.Pkg == nil || !strings.HasPrefix(f.Pkg.Pkg.Path(), M) {
+			return
+		}
+		seen[f] = true
+		order = append(order, f)
+		for _, i := range instrs(f) {
+			if c, ok := i.(ssa.CallInstruction); ok {
+				visit(c.Common().StaticCallee())
+			}
+			if mc, ok := i.(*ssa.MakeClosure); ok {
+				if fn, ok := mc.Fn.(*ssa.Function); ok {
+					visit(fn)
+				}
+			}
+		}
+	}
+	for _, f := range roots {
+		visit(f)
+	}
+	return order
+}
+
+// terminators lists the constructs in f that end the whole process (or, for
+// an uncaught panic in a connection goroutine, do so because nothing recovers).
+func terminators(f *ssa.Function) []ssa.Instruction {
+	var out []ssa.Instruction
+	for _, i := range instrs(f) {
+		switch x := i.(type) {
+		case *ssa.Panic:
+			// go/ssa emits a position-less Panic after a default-less select
+			// ("blocking select matched no case"): unreachable, not source.
+			if x.Pos().IsValid() {
+				out = append(out, x)
+			}
+		case ssa.CallInstruction:
+			switch calleeName(x) {
+			case "os.Exit", "log.Fatal", "log.Fatalf", "log.Fatalln", "log.Panic", "log.Panicf", "log.Panicln",
+				"(*log.Logger).Fatal", "(*log.Logger).Fatalf", "(*log.Logger).Fatalln", "(*log.Logger).Panic", "(*log.Logger).Panicf", "(*log.Logger).Panicln",
+				"runtime.Goexit", "syscall.Exit":
+				out = append(out, x)
+			}
+		}
+	}
+	return out
+}
+
+// c03R6: "no such failure, and no byte sequence sent by a client, terminates
+// the proxy process". The connection goroutine has no recover, so an explicit
+// panic / os.Exit / log.Fatal on any statically reachable path of the module's
+// own code is a way for traffic to end the process. Decides the explicit
+// constructs only; run-time panics (index, nil) are C03.R4 and declined.
+func c03R6(r *Report) {
+	r.Guard("C03.R6", "no explicit panic, os.Exit or log.Fatal is statically reachable from the connection goroutine in the module's own code", func() {
+		loop := r.Use("", "Proxy.handleLoop")
+		serve := r.Use("", "Proxy.Serve")
+		if loop == nil || serve == nil {
+			return
+		}
+		fs := r.W.staticReach(loop, serve)
+		n := 0
+		for _, f := range fs {
+			r.Touch(f)
+			for _, t := range terminators(f) {
+				if pn, ok := t.(*ssa.Panic); ok {
+					if why := r.W.unreachableEnumDefault(pn); why != "" {
+						r.Hold("table", fmt.Sprintf("%s: panic after an exhaustive switch", fnName(f)), why, pn.Pos())
+						continue
+					}
+				}
+				n++
+				what := "panic"
+				if c, ok := t.(ssa.CallInstruction); ok {
+					what = calleeName(c)
+				}
+				r.Fail("callgraph", fmt.Sprintf("%s: %s#%d reachable from the connection goroutine", fnName(f), what, n), "a process-terminating construct is reachable from (*Proxy).handleLoop / Serve through static calls: traffic that steers execution there ends the proxy (nothing recovers)", nil, t.Pos())
+			}
+		}
+		r.Decide("callgraph", "(*M.Proxy).handleLoop: no process-terminating construct in the static call closure", n == 0, fmt.Sprintf("%d module functions reachable through static calls, closures, go and defer; none contains panic, os.Exit, log.Fatal*, log.Panic*, runtime.Goexit", len(fs)), "see the individual constructs")
+		// no recover exists, which is why the rule matters; note if one appears
+		for _, f := range fs {
+			for _, c := range calls(f, "builtin.recover") {
+				r.Note("recover() at %s: run-time panics below it no longer end the process", r.W.Pos(c.Pos()))
+			}
+		}
+	})
+}
+
+// unreachableEnumDefault accepts one idiom of an explicit panic that no input
+// can reach: the fall-through of a switch over a parameter of a named integer
+// type T whose cases cover every constant of T declared in T's package, where
+// nothing in the module converts a non-constant to T (so a T only ever holds a
+// declared constant). Returns the argument, or "" when the idiom is not met.
+func (w *World) unreachableEnumDefault(pn *ssa.Panic) string {
+	var subject ssa.Value
+	covered := map[string]bool{}
+	for _, e := range ctrlEdges(pn.Block()) {
+		b, ok := e.If.Cond.(*ssa.BinOp)
+		if !ok || b.Op != token.EQL || e.Taken {
+			return ""
+		}
+		x, c := b.X, b.Y
+		if _, isC := x.(*ssa.Const); isC {
+			x, c = c, x
+		}
+		k, isC := c.(*ssa.Const)
+		if !isC || k.Value == nil {
+			return ""
+		}
+		if subject != nil && subject != x {
+			return ""
+		}
+		subject = x
+		covered[k.Value.ExactString()] = true
+	}
+	par, ok := subject.(*ssa.Parameter)
+	if !ok {
+		return ""
+	}
+	named, ok := par.Type().(*types.Named)
+	if !ok || named.Obj().Pkg() == nil {
+		return ""
+	}
+	if b, ok := named.Underlying().(*types.Basic); !ok || b.Info()&types.IsInteger == 0 {
+		return ""
+	}
+	scope := named.Obj().Pkg().Scope()
+	nconst := 0
+	for _, name := range scope.Names() {
+		if c, ok := scope.Lookup(name).(*types.Const); ok && types.Identical(c.Type(), named) {
+			nconst++
+			if !covered[c.Val().ExactString()] {
+				return ""
+			}
+		}
+	}
+	if nconst == 0 || !covered["0"] {
+		return "" // the zero value of T must be a covered constant too
+	}
+	// no value of T is manufactured from a non-constant anywhere in the module
+	for _, f := range w.fns {
+		for _, i := range instrs(f) {
+			var to types.Type
+			var from ssa.Value
+			switch x := i.(type) {
+			case *ssa.Convert:
+				to, from = x.Type(), x.X
+			case *ssa.ChangeType:
+				to, from = x.Type(), x.X
+			case *ssa.BinOp:
+				if types.Identical(x.Type(), named) {
+					return "" // arithmetic on the enum
+				}
+			case *ssa.UnOp:
+				if x.Op != token.MUL && x.Op != token.ARROW && types.Identical(x.Type(), named) {
+					return ""
+				}
+			}
+			if to != nil && types.Identical(to, named) {
+				if _, isC := from.(*ssa.Const); !isC {
+					return ""
+				}
+			}
+		}
+	}
+	return fmt.Sprintf("the panic is the fall-through of a switch over parameter %s of type %s whose cases cover all %d declared constants; the module never converts a non-constant to that type or computes with it, so no input reaches it", par.Name(), short(named.String()), nconst)
 }
